@@ -73,8 +73,8 @@ ASSUMPTIONS = [
     "state-variable stimuli are never delivered in bursts (C04/C05 territory); events and service calls are",
 ]
 TIERS = {
-    "quick": {"runs": 4000, "chunk": 125},
-    "thorough": {"runs": 48000, "chunk": 500},
+    "quick": {"runs": 16000, "chunk": 500, "shrink_budget": 25},
+    "thorough": {"runs": 200000, "chunk": 2500, "shrink_budget": 60},
 }
 REACH_PROBES = [
     "fault_in_trigger_function", "fault_in_service", "fault_in_expression", "fault_in_expression_direct",
@@ -289,6 +289,8 @@ def gen(rng: random.Random, tier: str) -> dict:
         "cb_on": rng.choice(["self", "created"]),
         "cb_sibling": rng.choice([None, "before", "after"]),
     }
+    if entry == "time_func":
+        cfg["drift"] = 0.0  # a drifting wall clock makes period() fire twice per instant (C06/C07's subject)
     if entry in LOAD_ENTRIES and spec["wit_same"]["kind"] == "service":
         spec["wit_same"]["kind"] = "event"
     # ---- stimuli
@@ -352,7 +354,10 @@ def _fault_lines(fault: dict, toplevel: bool, xvar: str = "x") -> list:
     if kind in FAULT_EXPR:
         return _apply_expr_site(fault["site"], FAULT_EXPR[kind].replace("{x}", xvar), toplevel)
     inner = FAULT_EXPR[fault.get("inner") or "zerodiv"].replace("{x}", xvar)
-    stmt = [s.replace("{Exc}", fault.get("exc") or "RuntimeError").replace("{E0}", inner) for s in FAULT_STMT[kind]]
+    exc_name = fault.get("exc") or "RuntimeError"
+    if kind == "raise_noargs" and exc_name in ("SyntaxError", "IndentationError"):
+        exc_name = "RuntimeError"  # str(SyntaxError()) is 'None': no message to look for
+    stmt = [s.replace("{Exc}", exc_name).replace("{E0}", inner) for s in FAULT_STMT[kind]]
     return _apply_stmt_site(fault["site"], stmt)
 
 
@@ -948,18 +953,13 @@ def warmup() -> None:
             pass
 
 
-_FROZEN = [False]
-
-
 def _freeze_heap() -> None:
-    """World.run ends with a full gc.collect(); with Home Assistant imported that scan costs ~0.18 s per run.
-    After the first run of a process the long-lived heap (modules, classes) is moved to the permanent
-    generation, so later collections only look at what the run itself allocated.  No effect on behaviour:
-    the collector is disabled while a world runs and garbage of a run is still collected at its end."""
-    if not _FROZEN[0]:
-        gc.collect()
-        gc.freeze()
-        _FROZEN[0] = True
+    """World.run ends with a full gc.collect(); with Home Assistant imported that scan costs ~0.18 s per run,
+    and objects that survive a run (a few hundred per run stay referenced from HA/pyscript globals) make it
+    slower run by run.  After each run whatever survived the collection is moved to the permanent generation,
+    so the next collection only looks at what the next run allocates.  No effect on behaviour: the collector
+    is disabled while a world runs and the garbage of a run is still collected at its end."""
+    gc.freeze()
 
 
 def _scrub_trace(w: World) -> None:
@@ -1099,7 +1099,7 @@ def oracle(w: World, scn: dict, files: dict, native: list, obs: dict):
     pre = [m for m in w.marks if m["args"] == ["pre"]]
     n_pre = len(pre)
     stimuli = obs["stimuli"] + (1 if is_load or entry == "shutdown" else 0)
-    if n_pre > stimuli:
+    if n_pre > stimuli and entry != "time_func":  # extra firings of a period are C06/C07's subject
         raise HarnessError(f"{n_pre} occurrences for {stimuli} stimuli (entry {entry})")
     if n_pre < stimuli:
         viol("C18.trigger_dead", dict(base_sig, served=min(n_pre, 2)),
